@@ -30,6 +30,7 @@ type feedOpts struct {
 	boundaryQ            int  // quick number of boundary base documents (default 4)
 	boundaries           bool // long documents corrupted at positions round 64, 128, ..., 65536 (chunked scanners)
 	alignment            bool // runs of every token class at every length 0..40 x special byte x tail length (word-at-a-time scanners)
+	amplify              bool // one small element (every single-gap whitespace variant of 6 templates, and drawn ones) repeated > 10000 times in one container
 	strRuns              bool // strings made of N directly adjacent escapes of one kind (N in 0..140 and round powers of two) + a closer, as value and key
 	numShapes            int  // number tokens over a grid of (integer, fraction, exponent) digit counts; the value is the number of contexts (1..4), 0 = skip
 }
@@ -258,6 +259,71 @@ func (e *env) feed(o feedOpts, f inputFn) {
 		}
 	}
 
+	// 2b+. amplification: a small element repeated more than 10 000 (thorough: 70 000) times in
+	// one array or object. Whatever a scanner gets slightly wrong once per element - a counter
+	// that leaks, a level that is not popped - reaches any 16-bit or depth-limit-sized bound.
+	if o.amplify && e.enumStage("amplify", "6 element templates x every single-gap whitespace variant (3 whitespace kinds) and the all-gaps variant x {array, object} of 10050 (thorough also 40000, 70000) repetitions", true) {
+		templates := [][]string{
+			{"{", `"k"`, ":", `"v"`, "}"},
+			{"{", `"k"`, ":", "[", "1", "]", "}"},
+			{"[", "{", `"a"`, ":", "1", "}", "]"},
+			{"{", `"a"`, ":", "{", `"b"`, ":", "[", "]", "}", "}"},
+			{"[", `"s"`, ",", "[", "2", "]", "]"},
+			{"[", "[", "]", ",", "{", "}", ",", `"x\n"`, "]"},
+		}
+		reps := []int{10050}
+		if cfg.Thorough() {
+			reps = append(reps, 40000, 70000)
+		}
+		idx := 0
+	amp:
+		for _, tpl := range templates {
+			for gap := 0; gap <= len(tpl)-1; gap++ { // gap == len(tpl)-1: whitespace in every gap
+				for _, ws := range []string{" ", "\n", "\t "} {
+					idx++
+					if !cfg.Mine(idx) {
+						continue
+					}
+					var el []byte
+					for ti, tok := range tpl {
+						el = append(el, tok...)
+						if ti+1 < len(tpl) && (ti == gap || gap == len(tpl)-1) {
+							el = append(el, ws...)
+						}
+					}
+					for _, n := range reps {
+						for _, obj := range []bool{false, true} {
+							b := make([]byte, 0, n*(len(el)+5)+2)
+							if obj {
+								b = append(b, '{')
+							} else {
+								b = append(b, '[')
+							}
+							for i := 0; i < n; i++ {
+								if i > 0 {
+									b = append(b, ',')
+								}
+								if obj {
+									b = append(b, `"m":`...)
+								}
+								b = append(b, el...)
+							}
+							if obj {
+								b = append(b, '}')
+							} else {
+								b = append(b, ']')
+							}
+							if err := call("amplify", b); err != nil {
+								report("amplify", b, err)
+								break amp
+							}
+						}
+					}
+				}
+			}
+		}
+	}
+
 	// 2b'. number shapes: every combination of integer / fraction / exponent digit counts from
 	// the grids above (a part of a number is scanned by its own loop or helper, and what
 	// follows a long part is decided after it)
@@ -423,7 +489,7 @@ func (e *env) feed(o feedOpts, f inputFn) {
 
 	// 4b. every fcall site at the depth limit: all opener contexts (first/later member of an
 	// array/object, either opener kind) x depths 9999..10001 x bottoms, fully closed
-	if o.nestQ > 0 && !o.noDepthSites && e.enumStage("depthsites", "7 array/object mixtures x sibling/no sibling x depths {9999,10000,10001} x 6 bottoms x {closed, unclosed}", true) {
+	if o.nestQ > 0 && !o.noDepthSites && e.enumStage("depthsites", "7 array/object mixtures x sibling/no sibling x depths {9999,10000,10001} x 6 bottoms x {closed, unclosed, closed with a number or string behind the deep member}", true) {
 		idx := 0
 	sites:
 		for _, pat := range gen.NestPatterns {
@@ -442,6 +508,16 @@ func (e *env) feed(o feedOpts, f inputFn) {
 							if err := call("depthsite", doc); err != nil {
 								report("depthsite", doc, err)
 								break sites
+							}
+							if cl == d && len(bottom) <= 1 {
+								// the same shape with a number behind the deep member in the two outermost
+								// containers (state set at the limit must survive what follows)
+								after := []string{"1.5", "2e3", "7", `"s"`}[idx%4]
+								doc = gen.NestSpec{Depth: d, Pattern: pat, Close: cl, Bottom: bottom, Sibling: sib, After: after, AfterLevels: 2}.Build()
+								if err := call("depthsite", doc); err != nil {
+									report("depthsite", doc, err)
+									break sites
+								}
 							}
 						}
 					}
